@@ -16,7 +16,10 @@ git -C $WT checkout -q -- .
 g++ -std=c++17 -O1 -g -I$WT/include $M/demo.cpp $(echo $SRCS | tr ' ' '\n' | sort -u) -o /tmp/demo_c -pthread -ldl 2>/dev/null; timeout 20 /tmp/demo_c >/dev/null 2>&1; echo "demo without mutant: exit $?"
 rm -rf $WT/_build /tmp/demo_m /tmp/demo_c
 git -C /repo apply $M/patch.diff || { echo "DOES NOT APPLY TO /repo"; exit 2; }
+rm -rf /verif/.build/evidence.keep && cp -r /verif/evidence /verif/.build/evidence.keep
 for id in "$@"; do
   ( cd /verif && ./check $id --tier quick 2>&1 | grep -E "^VIOLATION|^KNOWN|^C[0-9]+ quick" | sed "s/^/  [$id] /" )
 done
 git -C /repo checkout -q -- .
+rm -rf /verif/evidence && mv /verif/.build/evidence.keep /verif/evidence
+( cd /verif && python3 -m vlib.regen > /dev/null )
